@@ -5,6 +5,7 @@ import (
 	"time"
 
 	"verifharness/core"
+	"verifharness/sim"
 )
 
 // C02 — UDP transport: reliable, ordered, exactly-once stream over a faulty network.
@@ -22,6 +23,39 @@ func init() {
 				}
 				cases[i] = genUDPCase(c.Rand, budget, c.Thorough() && i%4 == 0)
 			}
+			// special cases (also in the quick tier; each costs a few seconds of protocol timers)
+			many := make([]int, 5000)
+			for j := range many {
+				many[j] = 16
+			}
+			mk := func(f func(k *udpCase)) {
+				k := genUDPCase(c.Rand, 20000, false)
+				k.Faults = sim.FaultSpec{Seed: c.Rand.Int63(), DelayMs: 20}
+				k.TimeoutS = 180
+				f(&k)
+				cases = append(cases, k)
+			}
+			// the receiver's application stalls until the advertised window closes; it must reopen
+			mk(func(k *udpCase) {
+				k.Scripts = []sim.Script{{ClientWrites: many, ServerWrites: []int{10}, MaxRead: 65536, ServerStallMs: 3000}}
+			})
+			// a long path (300 ms round trip) with a large window in flight and single losses
+			mk(func(k *udpCase) {
+				k.Faults.LatencyMs = 150
+				k.Faults.DropC2S = []int{40, 41, 90}
+				k.Faults.DropS2C = []int{30}
+				k.Scripts = []sim.Script{{ClientWrites: []int{65536, 65536, 65536, 65536}, ServerWrites: []int{65536, 65536}, MaxRead: 65536}}
+			})
+			// the open request (with a piggy-backed first write) is lost; the open response is lost
+			mk(func(k *udpCase) {
+				k.Faults.DropC2S = []int{0}
+				k.Scripts = []sim.Script{{ClientWrites: []int{500, 3000}, ServerWrites: []int{2000}, MaxRead: 1500}}
+			})
+			mk(func(k *udpCase) {
+				k.Faults.DropS2C = []int{0}
+				k.Scripts = []sim.Script{{ClientWrites: []int{500, 3000}, ServerWrites: []int{2000}, MaxRead: 1500}}
+			})
+			n = len(cases)
 			c.Sample(cases[0])
 			c.Sample(cases[1])
 			core.Parallel(n, 12, func(i int) { udpRun(c, cases[i], "C02") })
@@ -47,6 +81,15 @@ func init() {
 					cases[i].Faults.Loss, cases[i].Faults.Reorder, cases[i].Faults.Dup = 0.08, 0.15, 0.05
 				}
 			}
+			// retransmission of the open request with a piggy-backed payload, and of the open response
+			for _, drop := range [][2][]int{{{0}, nil}, {nil, {0}}, {{0, 1}, {0}}} {
+				k := genUDPCase(c.Rand, 20000, false)
+				k.Faults = sim.FaultSpec{Seed: c.Rand.Int63(), DelayMs: 20, DropC2S: drop[0], DropS2C: drop[1]}
+				k.Scripts = []sim.Script{{ClientWrites: []int{700, 5000}, ServerWrites: []int{3000}, MaxRead: 1500}}
+				k.TimeoutS = 180
+				cases = append(cases, k)
+			}
+			n = len(cases)
 			c.Sample(cases[0])
 			core.Parallel(n, 12, func(i int) { udpRun(c, cases[i], "C13") })
 			bgClose.Wait(30 * time.Second)
